@@ -4,6 +4,7 @@ from __future__ import annotations
 
 import ast
 
+from ..memo import check_memo_keys
 from ..core import Unrecognised, call_name, calls_in, facts, has_fact, parent, site, src, walk_local
 
 FUZZ = "src/isla/fuzzer.py"
@@ -99,5 +100,6 @@ def run(ctx) -> str:
     ctx.guarded("F1", lambda: rule_f1(ctx))
     ctx.guarded("F2", lambda: rule_f2(ctx))
     ctx.guarded("F3", lambda: rule_f3(ctx))
+    ctx.guarded("F4", lambda: ctx.inventory.__setitem__("memo_sites", check_memo_keys(ctx, "F4-memo-key", [MUT, FUZZ])))
     ctx.assume("asserts enabled; DerivationTree.replace_path changes only the addressed subtree (C16)")
     return EXPLANATION
